@@ -2,8 +2,11 @@
 // Oracles: __int128 / exact integer arithmetic, divisibility laws, componentwise definitions.
 #include <math.h>
 
+#include <cmath>
+#include <map>
 #include <set>
 #include <stdexcept>
+#include <vector>
 
 #include "Math.hh"
 #include "Random.hh"
@@ -466,11 +469,22 @@ static void v3_transitive(vf::Rng& r) {
 
 static void v4_suite(vf::Rng& r) {
   uint64_t n = C->qt<uint64_t>(200000, 10000000) / C->nshards + 1;
-  for (uint64_t i = 0; i < n; i++) {
+  // round 5: the first 3^8 indices enumerate every pair over {-1,0,1}^4 (all patterns of zero / equal / unit components),
+  // partitioned over the shards; the rest is the sampled part
+  const uint64_t NENUM = 6561;
+  for (uint64_t i = 0; i < n + NENUM; i++) {
     int64_t a[4], b[4], c[4];
+    if (i < NENUM) {
+      if (!C->mine(i)) continue;
+      uint64_t t = i;
+      for (int k = 0; k < 4; k++) { a[k] = (int64_t)(t % 3) - 1; t /= 3; }
+      for (int k = 0; k < 4; k++) { b[k] = (int64_t)(t % 3) - 1; t /= 3; }
+      for (int k = 0; k < 4; k++) c[k] = r.range(-1, 1);
+    } else {
     int L = r.chance(1, 2) ? 1 : 4;
     for (int k = 0; k < 4; k++) { a[k] = r.range(-L, L); b[k] = r.range(-L, L); c[k] = r.range(-L, L); }
     if (r.chance(1, 3)) { int p = r.below(4); for (int k = 0; k < p; k++) b[k] = a[k]; }  // shared prefix
+    }
     V4 A(a[0], a[1], a[2], a[3]), B(b[0], b[1], b[2], b[3]), Cc(c[0], c[1], c[2], c[3]);
     C->evaluations++;
     C->crumb_n("v4", a[0], a[1], a[2], a[3], b[0], b[1]);
@@ -513,6 +527,7 @@ static void v4_suite(vf::Rng& r) {
     int pre = 0;
     while (pre < 4 && a[pre] == b[pre]) pre++;
     C->cls(fmt("v4:cmp%d:prefix%d", cm, pre));
+    if (i < NENUM) C->cls("v4:enumerated:{-1,0,1}^4-pairs");
   }
   // constructors
   V4 c1(V2(1, 2), 3, 4), c2(V3(1, 2, 3), 4), c3(1, 2, 3, 4);
@@ -572,6 +587,8 @@ static string mstr(const MI& m) {
   }
   return s + "]";
 }
+
+#include "c20_struct.hh"
 
 static void matrix_suite(vf::Rng& r) {
   uint64_t n = C->qt<uint64_t>(10000, 1000000) / C->nshards + 1;
@@ -673,54 +690,27 @@ static void matrix_suite(vf::Rng& r) {
     C->cls(fmt("matrix:int:style%d", style));
     if (i < 2) C->sample("matrix " + d);
   }
-  // inversion of strictly diagonally dominant matrices
+  // inversion of strictly diagonally dominant matrices: every base matrix is also inverted scaled by powers of two
+  // (uniform ladder, non-uniform rows / columns), see c20_struct.hh
   n = C->qt<uint64_t>(10000, 1000000) / C->nshards + 1;
-  double worst = 0;
+  uint64_t st_count[5] = {0, 0, 0, 0, 0}, stf_count[5] = {0, 0, 0, 0, 0};
   for (uint64_t i = 0; i < n; i++) {
-    MD M;
     int style = r.below(5);
-    for (int y = 0; y < 4; y++) {
-      double rowsum = 0;
-      for (int x = 0; x < 4; x++) if (x != y) {
-        double e = style == 0 ? (double)r.range(-9, 9) : ((double)(int64_t)r.next() / 9.3e18) * (style == 1 ? 1.0 : 1e3);
-        if (style >= 3) e = (double)r.range(-5, 5) / 16.0;  // dyadic, row sum <= 15/16: exact arithmetic, special pivots
-        M.m[x][y] = e;
-        rowsum += fabs(e);
-      }
-      double dm = rowsum * (1.0 + (double)(r.below(1000) + 1) / 250.0) + (rowsum == 0 ? 1.0 : 0.0);
-      if (style == 3) dm = 1.0;                          // pivots exactly 1 (or -1): "already normalised" rows
-      if (style == 4) dm = (double)(1 << r.below(4));    // pivots exactly 1, 2, 4, 8
-      M.m[y][y] = r.chance(1, 2) ? dm : -dm;
+    c20s::DM M = c20s::make_dominant_random(style, r, 1.0);
+    std::string fam = fmt("random-dominant:style%d", style);
+    c20s::inverse_family<double>(M, fam, i * C->nshards + C->shard + C->seed, C->qt<int>(4, 4), r, false);
+    st_count[style]++;
+    if (i < 1) C->sample("inverse " + fam + " M(rows;)=" + c20s::dm_str(M) + " and the same matrix times 2^s along the scale ladder");
+    if (i % 4 == 0) {
+      c20s::DM Mf = c20s::make_dominant_random(style, r, 1.5);
+      c20s::inverse_family<float>(Mf, fam, i * C->nshards + C->shard + C->seed, 2, r, true);
+      stf_count[style]++;
     }
-    // also require column dominance? Row dominance suffices for stable elimination.
-    C->evaluations++;
-    string d = "M=[";
-    for (int y = 0; y < 4; y++) for (int x = 0; x < 4; x++) d += fmt("%.17g%s", M.m[x][y], x == 3 ? ";" : ",");
-    d += "]";
-    C->crumb_s("inverse " + d);
-    MD Inv;
-    try {
-      Inv = M.inverse();
-    } catch (const std::exception& e) {
-      C->violation("matrix4:inverse-throws", string("inverse() threw for a strictly diagonally dominant matrix: ") + e.what(), d);
-      continue;
-    }
-    MD P = M * Inv, Q = Inv * M;
-    double err = 0;
-    for (int x = 0; x < 4; x++) for (int y = 0; y < 4; y++) {
-      double e1 = fabs(P.m[x][y] - (x == y ? 1.0 : 0.0)), e2 = fabs(Q.m[x][y] - (x == y ? 1.0 : 0.0));
-      if (e1 > err) err = e1;
-      if (e2 > err) err = e2;
-      if (isnan(P.m[x][y]) || isnan(Q.m[x][y])) err = INFINITY;
-    }
-    if (err > worst) worst = err;
-    if (err > 1e-9) C->violation("matrix4:inverse", fmt("|M*inverse(M) - I| = %g > 1e-9", err), d);
-    MD M2 = M; M2.invert();
-    if (!(M2 == Inv)) C->violation("matrix4:invert-inplace", "invert() differs from inverse()", d);
-    C->cls(fmt("matrix:dominant:style%d", style));
-    if (i < 1) C->sample("inverse " + d);
   }
-  C->count("matrix_inverse_worst_error_x1e18", (uint64_t)(worst * 1e18));
+  for (int k = 0; k < 5; k++) {
+    if (st_count[k]) C->cls(fmt("matrix:dominant:style%d", k), st_count[k]);
+    if (stf_count[k]) C->cls(fmt("matrix:dominant:float:style%d", k), stf_count[k]);
+  }
 }
 
 int main(int argc, char** argv) {
@@ -777,7 +767,15 @@ int main(int argc, char** argv) {
     float_vector_suite<Vector3<double>, 3>("vector3d");
     float_vector_suite<Vector4<double>, 4>("vector4d");
   }
+  if (want("vector")) {
+    c20s::float_vector_scale_suite<Vector2<double>, 2>("vector2d", r);
+    c20s::float_vector_scale_suite<Vector3<double>, 3>("vector3d", r);
+    c20s::float_vector_scale_suite<Vector4<double>, 4>("vector4d", r);
+  }
   if (want("matrix")) matrix_suite(r);
+  if (want("matrix") || want("struct")) c20s::structured_int_suite(r);
+  if (want("matrix") || want("inverse")) c20s::structured_inverse_suite(r);
+  c20s::report_stats();
   c.sample("gcd<u8>(all pairs 0..255 capped at 300), gcd<u64>(2^k±1 pairs), log2i<T>(2^k-1,2^k,2^k+1 for every k<width)");
   c.sample("random_int(lo,hi) with spans {0,255,256,65535,65536,2^32±1,2^63-2}; random_data sizes 0..9000 crossing the 4096-byte refill");
   c.sample("Vector3 all pairs a,b in [-4,4]^3: add/sub/dot/cross/orthogonality/operator< laws");
